@@ -157,8 +157,86 @@ def emit_bounds_fresh(repo: Path, status: dict, flags: dict) -> None:
         flags["gen_task_bounds_fresh"] = False; status["gen_task_bounds_fresh"] = f"ERROR: {e}"
 
 
+def hash_order_sites(repo: Path) -> list[str]:
+    """set / frozenset values whose ITERATION ORDER is observed (list(), tuple(), a for loop, a comprehension, np.array, join, enumerate, zip, unpacking ...) without
+    sorted(): the order of a set of strings depends on the interpreter's per-process hash seed.  Sets of integers derived from range(...) by difference /
+    intersection iterate in a hash-seed independent order and are accepted."""
+    def is_setexpr(n):
+        return (isinstance(n, ast.Call) and isinstance(n.func, ast.Name) and n.func.id in ("set", "frozenset")) or isinstance(n, (ast.Set, ast.SetComp)) \
+            or (isinstance(n, ast.BinOp) and isinstance(n.op, (ast.Sub, ast.BitOr, ast.BitAnd, ast.BitXor)) and (is_setexpr(n.left) or is_setexpr(n.right)))
+
+    def int_range_set(n):
+        if isinstance(n, ast.Call) and isinstance(n.func, ast.Name) and n.func.id == "set" and len(n.args) == 1 \
+                and isinstance(n.args[0], ast.Call) and ast.unparse(n.args[0].func) == "range":
+            return True
+        if isinstance(n, ast.BinOp) and isinstance(n.op, (ast.Sub, ast.BitAnd)):      # a subset of an integer range
+            return int_range_set(n.left)
+        return False
+    sites = []
+    for f in sorted((repo / "pyvolutionary").rglob("*.py")):
+        try: tree = ast.parse(f.read_text())
+        except SyntaxError: continue
+        parents = {}
+        for n in ast.walk(tree):
+            for c in ast.iter_child_nodes(n): parents[c] = n
+        for n in ast.walk(tree):
+            if not is_setexpr(n) or (n in parents and is_setexpr(parents[n]) and isinstance(parents[n], ast.BinOp)): continue       # maximal set expressions only
+            if int_range_set(n): continue
+            par = parents.get(n)
+            ordered = False
+            if isinstance(par, ast.Call) and n in par.args:
+                fn = ast.unparse(par.func)
+                if fn == "sorted" or fn in ("len", "set", "frozenset", "any", "all", "min", "max", "sum", "isinstance"): continue
+                ordered = True                                      # list(s), tuple(s), np.array(s), enumerate(s), zip(s), ''.join(s), f(s) ...
+            elif isinstance(par, (ast.For, ast.comprehension)) and par.iter is n: ordered = True
+            elif isinstance(par, ast.Starred): ordered = True
+            elif isinstance(par, ast.Assign) and isinstance(par.targets[0], (ast.Tuple, ast.List)): ordered = True
+            elif isinstance(par, ast.Compare) or isinstance(par, (ast.Assign, ast.AugAssign, ast.Return, ast.keyword, ast.Expr, ast.BoolOp, ast.UnaryOp, ast.IfExp, ast.If, ast.While)):
+                continue                                            # membership tests, stored / returned sets: no order observed here
+            if ordered: sites.append(f"{f.relative_to(repo)}:{n.lineno}: {ast.unparse(par)[:70]}")
+    return sites
+
+
+def emit_hash_order(repo: Path, status: dict, flags: dict) -> None:
+    try:
+        sites = hash_order_sites(repo)
+        flags["gen_no_hash_ordered_iteration"] = not sites
+        status["gen_no_hash_ordered_iteration"] = "regenerated" if not sites else "UNSUPPORTED: hash-ordered iteration at " + " | ".join(sites[:4])
+    except Exception as e:
+        flags["gen_no_hash_ordered_iteration"] = False; status["gen_no_hash_ordered_iteration"] = f"ERROR: {e}"
+
+
+EXPECT_TASK = {
+    "__init__": ["variables = kwargs.get('variables')", "kwargs['space_dimension'] = sum([v.size() for v in variables])", "super().__init__(**kwargs)", "self._EPS = np.finfo(float).eps"],
+    "get_variables": ["return [item for v in self.variables for item in (v.get() if v.has_children() else [v.get()])]"],
+    "get_bounds": ["lb = []", "ub = []", "for v in self.variables: lb_, ub_ = v.get_bounds() lb.extend(lb_ if v.has_children() else [lb_]) ub.extend(ub_ if v.has_children() else [ub_])",
+                   "return (np.array(lb), np.array(ub))"],
+    "empty_solution": ["solution = [item for v in self.variables for item in (v.randomize() if v.has_children() else [v.randomize()])]", "return solution"],
+    "transform_solution": ["counter = 0", "solution = {}",
+                           "for v in self.variables: temp = x[counter:counter + v.size()] solution[v.name] = v.decode(temp if v.has_children() else temp[0]) counter += v.size()",
+                           "return solution"],
+}
+
+
+def emit_task_shape(repo: Path, status: dict, flags: dict) -> None:
+    """the accessors of Task that the hand model of Vars.v / Task_proofs.v describes (flat_vars, bounds, dimension, empty_solution, transform) and that T-core does
+    not translate (loops with accumulators, nested comprehensions): each is a pure function of `self.variables` recomputed on every call, with exactly the modelled text"""
+    try:
+        tree = ast.parse((repo / "pyvolutionary" / "models.py").read_text())
+        changed = []
+        for name, want in EXPECT_TASK.items():
+            fn = method(tree, "Task", name)
+            if fn is None or body_text(fn) != want: changed.append(name)
+        flags["gen_task_methods_shape"] = not changed
+        status["gen_task_methods_shape"] = "regenerated" if not changed else "UNSUPPORTED: Task methods changed: " + ", ".join(changed)
+    except Exception as e:
+        flags["gen_task_methods_shape"] = False; status["gen_task_methods_shape"] = f"ERROR: {e}"
+
+
 def emit(repo: Path, status: dict) -> None:
     flags = {}
+    emit_task_shape(repo, status, flags)
+    emit_hash_order(repo, status, flags)
     emit_bounds_fresh(repo, status, flags)
     emit_multi(repo, status, flags)
     emit_enum(repo, status, flags)
